@@ -1772,11 +1772,15 @@ func SetPath(row Map, name string, value any) {
 	parts := strings.Split(name, ".")
 	node := row
 	for _, part := range parts[:len(parts)-1] {
-		next, ok := node[part].(Map)
-		if !ok {
-			next = make(Map)
-			node[part] = next
+		// the path is made of maps of its own: a map that is already there may
+		// belong to the document and is copied, never written to
+		next := make(Map)
+		if existing, ok := node[part].(Map); ok {
+			for key, value := range existing {
+				next[key] = value
+			}
 		}
+		node[part] = next
 		node = next
 	}
 	node[parts[len(parts)-1]] = value
